@@ -14,6 +14,9 @@ func scenarios(quick bool) []sigh.Scen {
 		{"sender-usurps-with-message-queued", [][]string{{"attach:a1:A:B", "wait", "send:a1:m1", "attach:a2:A:B"}, {"attach:b1:B:A"}}},
 		// the receiver's call is slow (blocked in Send) while a message is queued for it, and the receiver re-attaches
 		{"receiver-usurps-with-message-pending", [][]string{{"attach:a1:A:B", "attachs:b1:B:A", "wait", "send:a1:m1", "wait", "attach:b2:B:A", "wait", "resume:b1"}}},
+		// the partner re-attaches / usurps its call WHILE the sender's message is being handled (both wait for the session to be open first)
+		{"a-sends-while-b-reattaches", [][]string{{"!setup", "attach:a1:A:B", "attach:b1:B:A", "wait"}, {"send:a1:m1"}, {"cancel:b1", "attach:b2:B:A"}}},
+		{"a-sends-while-b-usurps", [][]string{{"!setup", "attach:a1:A:B", "attach:b1:B:A", "wait"}, {"send:a1:m1"}, {"attach:b2:B:A"}}},
 		{"both-attach", [][]string{{"attach:a1:A:B"}, {"attach:b1:B:A"}}},
 		{"b-reattach", [][]string{{"attach:a1:A:B"}, {"attach:b1:B:A", "cancel:b1", "attach:b2:B:A"}}},
 		{"b-usurp", [][]string{{"attach:a1:A:B"}, {"attach:b1:B:A", "attach:b2:B:A"}}},
